@@ -41,7 +41,7 @@ pub fn configs(tier: Tier) -> Vec<Box<dyn Config>> {
     let q = tier == Tier::Quick;
     let mut v = Vec::new();
     if sse2 {
-        v.push(cfg::<TKey, TVal>(Plan::Zero, if q { 5 } else { 8 }, None, None, tier, ""));
+        v.push(cfg::<TKey, TVal>(Plan::Zero, if q { 9 } else { 11 }, None, None, tier, ""));
         v.push(cfg::<PKey, PVal>(Plan::Seq, if q { 4 } else { 5 }, None, None, tier, ""));
         // full 16- and 32-bucket tables, with and without tombstones
         let mut seeds = vec![(0..14).map(MapOp::Insert).collect::<Vec<_>>(), (0..28).map(MapOp::Insert).collect::<Vec<_>>()];
@@ -50,7 +50,7 @@ pub fn configs(tier: Tier) -> Vec<Box<dyn Config>> {
         seeds.push(s);
         v.push(cfg::<TKey, TVal>(Plan::Zero, 30, Some(seeds), Some(if q { 1 } else { 2 }), tier, "-seeded"));
     } else {
-        v.push(cfg::<TKey, TVal>(Plan::Zero, if q { 5 } else { 9 }, None, None, tier, ""));
+        v.push(cfg::<TKey, TVal>(Plan::Zero, if q { 9 } else { 12 }, None, None, tier, ""));
         v.push(cfg::<PKey, PVal>(Plan::Cluster(2), if q { 4 } else { 6 }, None, None, tier, ""));
         let mut seeds = vec![(0..7).map(MapOp::Insert).collect::<Vec<_>>(), (0..14).map(MapOp::Insert).collect::<Vec<_>>()];
         let mut s = (0..14).map(MapOp::Insert).collect::<Vec<_>>();
